@@ -528,3 +528,59 @@ Found 6 errors.
     );
   }
 }
+
+/// Verification hooks (H6): token dump of the real `TokenProducer`. Compiled only with
+/// `--cfg samlang_verif`; nothing changes otherwise.
+#[cfg(samlang_verif)]
+pub mod verif_hooks {
+  use super::lexer::{Token, TokenContent, TokenProducer};
+  use samlang_errors::ErrorSet;
+  use samlang_heap::{Heap, ModuleReference};
+
+  /// One produced token: kind in {kw, op, upper, lower, str, int, line, block, doc, error, eof},
+  /// its text (keyword/operator spelling or interned content) and span (l0, c0, l1, c1).
+  pub type TokenDump = (&'static str, String, (u32, u32, u32, u32));
+
+  fn dump(heap: &Heap, Token(loc, content): Token) -> TokenDump {
+    let (kind, text) = match content {
+      TokenContent::Keyword(k) => ("kw", k.as_str().to_string()),
+      TokenContent::Operator(o) => ("op", o.as_str().to_string()),
+      TokenContent::EndOfFile => ("eof", String::new()),
+      TokenContent::UpperId(s) => ("upper", s.as_str(heap).to_string()),
+      TokenContent::LowerId(s) => ("lower", s.as_str(heap).to_string()),
+      TokenContent::StringLiteral(s) => ("str", s.as_str(heap).to_string()),
+      TokenContent::IntLiteral(s) => ("int", s.as_str(heap).to_string()),
+      TokenContent::LineComment(s) => ("line", s.as_str(heap).to_string()),
+      TokenContent::BlockComment(s) => ("block", s.as_str(heap).to_string()),
+      TokenContent::DocComment(s) => ("doc", s.as_str(heap).to_string()),
+      TokenContent::Error(s) => ("error", s.as_str(heap).to_string()),
+    };
+    (kind, text, (loc.start.0, loc.start.1, loc.end.0, loc.end.1))
+  }
+
+  /// Runs the real token producer to the end of `text` (errors go to `error_set`).
+  /// `on_token` is called after every token, so a caller can observe progress before a panic.
+  pub fn produce_tokens_with(
+    text: &str,
+    module_reference: ModuleReference,
+    heap: &mut Heap,
+    error_set: &mut ErrorSet,
+    mut on_token: impl FnMut(TokenDump),
+  ) {
+    let mut producer = TokenProducer::new(text, module_reference);
+    while let Some(token) = producer.next_token(heap, error_set) {
+      on_token(dump(heap, token));
+    }
+  }
+
+  pub fn produce_tokens(
+    text: &str,
+    module_reference: ModuleReference,
+    heap: &mut Heap,
+    error_set: &mut ErrorSet,
+  ) -> Vec<TokenDump> {
+    let mut out = Vec::new();
+    produce_tokens_with(text, module_reference, heap, error_set, |t| out.push(t));
+    out
+  }
+}
